@@ -11,6 +11,7 @@ import (
 	"hash/fnv"
 	"io"
 	"log"
+	"os"
 	"sort"
 	"strconv"
 	"strings"
@@ -58,6 +59,7 @@ type scase struct {
 	// kind "concurrent" with Stall > 0 (clock readings stalling up to Stall ms)
 	API   []apiStep `json:"api,omitempty"`
 	Stall int       `json:"stall_ms,omitempty"`
+	Addr  string    `json:"addr,omitempty"` // kind "auto-mid": the private IPv4 address of the namespace the child runs in
 }
 
 // ---- the fake clock ---------------------------------------------------------------------------
@@ -93,6 +95,9 @@ func (c *clock) offer(s []int64)   { c.script, c.pos = s, 0 }
 func (c *clock) consumed() []int64 { return c.script[:c.pos] }
 
 var clk = &clock{}
+
+// expectAutoRaw >= 0: NewSnowflake(0) must derive this raw machine value (third and fourth octet of the private IPv4).
+var expectAutoRaw int64 = -1
 
 // ---- running the real code ----------------------------------------------------------------------
 
@@ -162,6 +167,8 @@ type oracleGen struct {
 	nback    int64 // backward jumps accepted so far
 	lastID   int64
 	poisoned bool
+	hi       int64 // the highest reading any call began with (or the creation time): a refused reading below it may have burnt a rollback
+	hiSet    bool
 }
 
 type fail struct{ key, what string }
@@ -201,11 +208,22 @@ func (og *oracleGen) check(o outcome) (fs []fail) {
 		return
 	}
 	r1, final := o.used[0], o.used[len(o.used)-1]
-	neg := false
-	for _, r := range o.used {
-		if r < 0 {
-			neg = true
+	// readings before the epoch (negative): a call that BEGINS or ENDS with one must be refused (any error will do);
+	// negative readings that only pass by while a call waits for the next unit are skipped by the wait (the call may
+	// succeed — then with the fields of its last reading — or be refused)
+	neg := r1 < 0 || final < 0
+	negMid := false
+	for i, r := range o.used {
+		if r < 0 && i > 0 && i < len(o.used)-1 {
+			negMid = true
 		}
+	}
+	if !og.hiSet {
+		og.hi, og.hiSet = og.spec.T0, true
+	}
+	steppedBack := r1 < og.hi
+	if r1 > og.hi {
+		og.hi = r1
 	}
 	var want string
 	switch {
@@ -220,8 +238,11 @@ func (og *oracleGen) check(o outcome) (fs []fail) {
 	default:
 		want = "ok"
 	}
-	if neg {
-		defer func() { og.poisoned = true }() // the oracle does not predict what follows a reading before the epoch
+	if neg && (steppedBack || len(o.used) > 1) {
+		// a refused reading that stepped back may or may not have been counted as a rollback: the oracle does not predict
+		// what follows. (Refused readings that never stepped back — a clock that was unset when the machine booted and
+		// only ever moved forward — leave nothing behind: what follows is judged as usual.)
+		defer func() { og.poisoned = true }()
 	}
 	if want != "ok" {
 		if o.kind == "ok" {
@@ -239,6 +260,16 @@ func (og *oracleGen) check(o outcome) (fs []fail) {
 			add("error-kind", "readings %v: want %s, got %s", o.used, want, o.kind)
 			og.poisoned = true
 		}
+		return
+	}
+	if o.kind == "err:overflow" && final == 0 && og.wantMid == 0 && og.nback == 0 && og.lastID == 0 && og.spec.T0 < 0 {
+		// time 0, machine field 0, sequence 0, no rollback is the id 0, which no generator can issue (ids are positive);
+		// only a generator created before the epoch can get there
+		og.poisoned = true
+		return
+	}
+	if o.kind != "ok" && negMid {
+		og.poisoned = true // tolerated (see above)
 		return
 	}
 	if o.kind != "ok" {
@@ -286,6 +317,13 @@ func runCase(c scase, rec *hxlib.Run) (res result) {
 		og := &oracleGen{spec: g, wantMid: int64(g.Mid) % (1 << oMidBits), lastT: g.T0}
 		if g.Mid == 0 {
 			og.wantMid = m
+			if expectAutoRaw >= 0 {
+				// (child in a private network namespace: the harness configured the host's only private IPv4 address itself)
+				og.wantMid = expectAutoRaw % (1 << oMidBits)
+				if m != og.wantMid {
+					res.fails = append(res.fails, fail{"fields:auto-machine", fmt.Sprintf("the host's private IPv4 address ends in %d.%d (raw machine value %d): the generator's machine field must hold %d, it holds %d", expectAutoRaw>>8, expectAutoRaw&255, expectAutoRaw, og.wantMid, m)})
+				}
+			}
 			if m < 0 || m >= 1<<oMidBits {
 				res.fails = append(res.fails, fail{"fields:auto-machine", fmt.Sprintf("automatic machine id %d does not fit the machine field", m)})
 			}
@@ -791,6 +829,11 @@ func concurrentStall(r *hxlib.Run, seed uint64, mid uint16, workers, each int, s
 // ---- main ----------------------------------------------------------------------------------------
 
 func main() {
+	if addr := os.Getenv("HX_C09_AUTOMID"); addr != "" {
+		log.SetOutput(io.Discard)
+		autoChildMain(addr)
+		return
+	}
 	r := hxlib.Start("C09", "a clock trajectory for 1..4 generators; non-trivial when it contains a wait for the next unit (sequence exhausted) or a rollback; distinct by machine ids + readings")
 	defer r.Finish()
 	log.SetOutput(io.Discard)
@@ -799,6 +842,13 @@ func main() {
 		var c scase
 		r.LoadReplay(&c)
 		switch {
+		case c.Kind == "auto-mid":
+			out, skip, err := runAuto(c.Addr)
+			if skip != "" {
+				r.Note("replay impossible here: %s", skip)
+			} else {
+				judgeAuto(r, c.Addr, out, err)
+			}
 		case c.Kind == "concurrent":
 			concurrentStall(r, c.Seed, c.Mid, c.Workers, c.Each, c.Stall)
 		case c.Kind == "api":
@@ -821,6 +871,10 @@ func main() {
 			r.Note("the search legs found a failing input; the ordinary generators were not run again")
 			return
 		}
+	}
+	diversityLegs(r)
+	if os.Getenv("HX_ONLY") == "diversity" { // (development aid: only the third-wave legs)
+		return
 	}
 	boundaryMids := []uint16{1, 2, 1234, 0x3FFE, 0x3FFF, 0x4000, 0x4001, 0x7FFF, 0x8000, 0xC000, 0xFFFF, 0}
 
